@@ -405,6 +405,29 @@ def check(case: Dict[str, Any]) -> Dict[str, Any]:
         if n_bye != 3:
             raise Violation(f'service in the registry at close time got {n_bye} complete goodbyes instead of three before the '
                             'sockets closed', dict(det, service=s.name), tag='close-goodbyes')
+    # the last word: whatever the victim multicast about one of its services with a non-zero TTL (announcement or answer, also
+    # for a registration that completed while the close was under way) must have been followed by a goodbye before the sockets
+    # closed - otherwise the service stays alive in every cache on the link although its instance is gone
+    last_word: Dict[Any, Tuple[int, float]] = {}
+    vic_idents = set()
+    for d in VICTIM_SVCS:
+        s = rp.Svc(d)
+        vic_idents |= {s.ptr(), s.srv(), s.txt()} | set(s.addresses())
+    for e in trace:
+        if e['host'] != 'X' or e['dst'] != sim.MDNS4:
+            continue
+        m = sim.decode_trace_entry(e)
+        if m is None or not m['flags'] & 0x8000:
+            continue
+        for r in m['an'] + m['ar']:
+            i = rp.ident_of_wire_rr(r)
+            if i in vic_idents:
+                last_word[i] = (r['ttl'], e['t'] * 1000)
+    alive = sorted((str(i), ttl, rel(t)) for i, (ttl, t) in last_word.items() if ttl > 0)
+    if alive:
+        raise Violation('the last thing the instance multicast about one of its own records before closing carried a non-zero TTL '
+                        '(the service was announced or answered for, and never withdrawn)',
+                        dict(det, records=alive[:4], in_registry_at_close=[s.name for s in ex.in_registry_at_close]), tag='close-last-word')
     busy = bool(ex.pending_at_close or ex.queue_len_at_close or ex.tc_pending_at_close or ex.browser_startup_at_close)
     classes = []
     if any(n.startswith('register') for n in ex.pending_at_close):
